@@ -126,48 +126,39 @@ def nativeDt (us off d : Int) : PyM Val :=
 def nativeTd (us : Int) : PyM Val :=
   if -tdMaxUs ≤ us ∧ us ≤ tdMaxUs then .ok (.ntimedelta us) else .error .overflow
 
+/-- float arithmetic payload -/
+def dblOp (P : Prims) (op : ArOp) (x y : Dbl) : PyM Dbl :=
+  match op with
+  | .add => .ok (P.dAdd x y) | .sub => .ok (P.dSub x y) | .mul => .ok (P.dMul x y) | .div => .ok (P.dDiv x y)
+  | _ => .error .other       -- float % float: not reachable (DoubleType.__mod__ raises)
+
 /-- the native base class's binary operation `base.__op__(self, other)` (for `refl`: `base.__rop__(self, other)`,
 i.e. `other op self`); `none` = `NotImplemented`. Int-likes are handled by `intDunder`. -/
 def nativeBin (P : Prims) (op : ArOp) (refl : Bool) (self other : Val) : PyM (Option Val) :=
-  let (l, r) := if refl then (other, self) else (self, other)
   match self, other with
-  | .dbl _, .dbl _ =>
-      match l, r, op with
-      | .dbl x, .dbl y, .add => .ok (some (.nfloat (P.dAdd x y)))
-      | .dbl x, .dbl y, .sub => .ok (some (.nfloat (P.dSub x y)))
-      | .dbl x, .dbl y, .mul => .ok (some (.nfloat (P.dMul x y)))
-      | .dbl x, .dbl y, .div => .ok (some (.nfloat (P.dDiv x y)))
-      | _, _, _ => .error .other      -- float % float: not reachable (DoubleType.__mod__ raises)
-  | .str _, .str _ =>
-      match l, r, op, refl with
-      | .str x, .str y, .add, false => .ok (some (.nstr (x ++ y)))
-      | _, _, _, _ => .ok none
-  | .bytes _, .bytes _ =>
-      match l, r, op, refl with
-      | .bytes x, .bytes y, .add, false => .ok (some (.nbytes (x ++ y)))
-      | _, _, _, _ => .ok none
-  | .list _, .list _ =>
-      match l, r, op, refl with
-      | .list x, .list y, .add, false => .ok (some (.nlist (x ++ y)))
-      | _, _, _, _ => .ok none
+  | .dbl x, .dbl y => (dblOp P op (if refl then y else x) (if refl then x else y)).map (fun d => some (.nfloat d))
+  | .str x, .str y => if op = .add ∧ refl = false then .ok (some (.nstr (x ++ y))) else .ok none
+  | .bytes x, .bytes y => if op = .add ∧ refl = false then .ok (some (.nbytes (x ++ y))) else .ok none
+  | .list x, .list y => if op = .add ∧ refl = false then .ok (some (.nlist (x ++ y))) else .ok none
   -- datetime ± timedelta, datetime − datetime
   | .ts us off, .dur d =>
-      match op, refl with
-      | .add, _ => (nativeDt us off d).map some
-      | .sub, false => (nativeDt us off (-d)).map some
-      | _, _ => .ok none
+      if op = .add then (nativeDt us off d).map some
+      else if op = .sub ∧ refl = false then (nativeDt us off (-d)).map some
+      else .ok none
   | .ts a _, .ts b _ =>
-      match op with
-      | .sub => (nativeTd (if refl then b - a else a - b)).map some
-      | _ => .ok none
+      if op = .sub then (nativeTd (if refl then b - a else a - b)).map some else .ok none
   -- timedelta ± timedelta; timedelta + datetime is left to datetime.__radd__
   | .dur a, .dur b =>
-      match op with
-      | .add => (nativeTd (a + b)).map some
-      | .sub => (nativeTd (if refl then b - a else a - b)).map some
-      | _ => .ok none
-  | .dur _, .ts _ _ => .ok none
+      if op = .add then (nativeTd (a + b)).map some
+      else if op = .sub then (nativeTd (if refl then b - a else a - b)).map some
+      else .ok none
   | _, _ => .ok none
+
+/-- the native class `nativeBin` answers with, per operand classes -/
+def natClsOf : Cls → Cls → Cls
+  | .dbl, .dbl => .pyfloat | .str, .str => .pystr | .bytes, .bytes => .pybytes | .list, .list => .pylist
+  | .ts, .dur => .pydatetime | .ts, .ts => .pytimedelta | .dur, .dur => .pytimedelta
+  | _, _ => .pyint
 
 /-- IntType / UintType dunders (C01 proves them exact; here only the class matters): defined → the
 range-checked wrapper, inherited → a native int (a native float for `/`). -/
@@ -264,6 +255,9 @@ def convTable : List (String × Cls) :=
 
 /-- the type names CEL code can mention: the conversion names plus `type` (↦ `TypeType`) -/
 def typeNames : List (String × Cls) := convTable ++ [("type", .type)]
+
+/-- the name under which CEL code mentions the class -/
+def typeNameOf (c : Cls) : String := ((typeNames.find? (fun p => p.2 == c)).map (·.1)).getD ""
 
 /-- a constructor call `C(v)` of a wrapper class returns an instance of `C` (every `return` of `C.__new__` is
 `super().__new__(cls, …)` or an argument already known to be a `C`) — payload from `Prims` -/
